@@ -584,3 +584,17 @@ func AliveNamed(substr string) int {
 	}
 	return n
 }
+
+// DeadNamed reports whether a thread of the running execution with that name has crashed (its
+// process is gone: whatever it left in memory is gone with it).
+func DeadNamed(name string) bool {
+	if E == nil {
+		return false
+	}
+	for _, t := range E.threads {
+		if t.Name == name && t.Dead {
+			return true
+		}
+	}
+	return false
+}
